@@ -131,7 +131,7 @@ fn ok(r: Reply, what: &str) -> Result<Reply, String> {
 
 impl Run {
     pub fn start(known: Vec<String>) -> Result<Run, String> {
-        let cfg = DaemonCfg { admin_token: ADMIN.into(), config_file_auth: false, roles: vec![], users: Vec::<UserDef>::new(), unix_role: None, testbed: true, tcp: true };
+        let cfg = DaemonCfg { admin_token: ADMIN.into(), config_file_auth: false, roles: vec![], users: Vec::<UserDef>::new(), unix_role: None, testbed: true, tcp: true, disk: false };
         let d = Daemon::start(&cfg, &BTreeMap::new())?;
         let mut run = Run { d, stats: Default::default(), known, id_ca2: String::new(), pubreq: Value::Null, child_req_xml: String::new(), pub_req_xml: String::new(), parent_resp_xml: String::new(), repo_resp_xml: String::new() };
         run.ensure_baseline()?;
